@@ -236,3 +236,25 @@ func LoopAliasBad(es []ent) map[string]*ent {
 	}
 	return m
 }
+
+// ---- copies of plaintext ----
+
+type dataKey struct{ Plaintext []byte }
+
+func CopyOk(d *dataKey, use func([]byte)) { use(d.Plaintext) }
+
+func CopyBad(d *dataKey, use func([]byte)) {
+	c := append([]byte(nil), d.Plaintext...)
+	use(c)
+}
+
+// ---- lost update through a value receiver ----
+
+type counter struct {
+	mu *sync.Mutex
+	n  int
+}
+
+func (c *counter) IncOk() { c.mu.Lock(); c.n++; c.mu.Unlock() }
+
+func (c counter) IncBad() { c.mu.Lock(); c.n++; c.mu.Unlock() }
